@@ -53,11 +53,15 @@ def gen_rfcomm(rng, tier, seed):
             ops.append(['write', d, rng.randrange(2), size])
         elif r < 0.87 and open_set:
             d = rng.choice(sorted(open_set))
-            ops.append(['close', d, rng.randrange(2)])
+            ops.append(['close', d, rng.choice([0, 1, 0, 1, 2])])  # 2: both ends disconnect at the same time
             open_set.discard(d)
         elif r < 0.95 and len(open_set) < ndlc:
             d = rng.choice(sorted(set(range(ndlc)) - open_set))
-            ops.append(['reopen', d])
+            # ... possibly while another data link of the same multiplexer is being closed (by either end)
+            c = rng.choice(sorted(open_set)) if open_set and rng.random() < 0.4 else None
+            ops.append(['reopen', d, c, rng.randrange(2)])
+            if c is not None:
+                open_set.discard(c)
             open_set.add(d)
         else:
             ops.append(['settle'])
@@ -268,16 +272,29 @@ def run_rfcomm(case):
                 if not flush():
                     break
                 d = dl.pop(i)
-                who = 'initiator' if side == 0 else 'acceptor'
-                st, t = sim.run(d[side].disconnect(), 60.0)
-                if st != 'done':
-                    sim.violation_once('close', f'rfcomm:dlc-disconnect-hangs:by={who}', describe_task(t))
-                    t.cancel()
-                    break
+                who = 'initiator' if side == 0 else ('acceptor' if side == 1 else 'both')
+                if side == 2:
+                    sim.probe('both_ends_disconnect_a_dlc_at_once')
+                    ts = [sim.loop.create_task(d[0].disconnect()), sim.loop.create_task(d[1].disconnect())]
+                    st = sim.loop.drive(lambda: all(t.done() for t in ts), 60.0)
+                    if st != 'done':
+                        sim.violation_once('close', f'rfcomm:dlc-disconnect-hangs:by={who}', describe_task(next(t for t in ts if not t.done())))
+                        for t in ts:
+                            t.cancel()
+                        break
+                    for t in ts:
+                        if not t.cancelled():
+                            t.exception()  # losing the race (the peer's DISC came first) may be reported as an error: not judged
+                else:
+                    st, t = sim.run(d[side].disconnect(), 60.0)
+                    if st != 'done':
+                        sim.violation_once('close', f'rfcomm:dlc-disconnect-hangs:by={who}', describe_task(t))
+                        t.cancel()
+                        break
                 sim.loop.settle()
                 for s2, dd in enumerate(d):
                     if dd.state == dd.State.CONNECTED:
-                        end = 'closer' if s2 == side else 'other-end'
+                        end = 'closer' if s2 == side or side == 2 else 'other-end'
                         sim.violation_once('closestate', f'rfcomm:dlc-still-connected-after-disconnect:by={who}:{end}', f'{dd}')
                 m0, m1 = mux, (muxes[0] if muxes else None)
                 for mm, nm in ((m0, 'initiator'), (m1, 'acceptor')):
@@ -286,13 +303,31 @@ def run_rfcomm(case):
                 if sim.violations:
                     break
             elif kind == 'reopen':
-                _, i = op
+                i = op[1]
                 if i in dl:
                     continue
+                closing = None
+                if len(op) > 3 and op[2] is not None and op[2] in dl:
+                    if not flush():
+                        break
+                    cd = dl.pop(op[2])
+                    closing = (cd, sim.loop.create_task(cd[op[3]].disconnect()))
+                    sim.probe('dlc_opened_while_another_is_being_closed')
                 reopened += 1
                 sim.probe('dlc_reopened')
                 if not open_dlc(i):
                     break
+                if closing is not None:
+                    cd, tcl = closing
+                    st = sim.loop.drive(tcl.done, 60.0)
+                    if st != 'done':
+                        sim.violation_once('close', 'rfcomm:dlc-disconnect-hangs:during-open-of-another', describe_task(tcl))
+                        tcl.cancel()
+                        break
+                    sim.loop.settle()
+                    for mm, nm in ((mux, 'initiator'), (muxes[0] if muxes else None, 'acceptor')):
+                        if mm is not None and cd[0].dlci in mm.dlcs:
+                            sim.violation_once('closetable', f'rfcomm:closed-dlc-still-in-table:during-open-of-another:{nm}', f'dlci {cd[0].dlci}')
         if not sim.violations:
             flush()
         for i in list(dl):
